@@ -471,6 +471,25 @@ func (x *Exec) evalIndex(env *Env, e *Expr) Value {
 			k := x.term(x.typed(x.evalExpr(env, e.Y), mt.Key()))
 			return x.mapLoadVal(env.st, mt, b.T, k, mt.Elem(), "")
 		}
+	case ArrayV:
+		// small array value: a constant index picks the element, a symbolic one an ite chain
+		iv := x.evalExpr(env, e.Y)
+		if u, ok := iv.(UntypedInt); ok {
+			if n, err := strconv.Atoi(u.N); err == nil && n >= 0 && n < len(b.Elems) {
+				return b.Elems[n]
+			}
+		}
+		i := x.term(x.typed(iv, u64T))
+		if len(b.Elems) > 0 {
+			if _, ok := b.Elems[0].(Scalar); ok {
+				r := b.Elems[len(b.Elems)-1].(Scalar)
+				t := r.T
+				for k := len(b.Elems) - 2; k >= 0; k-- {
+					t = "(ite (= " + i + " " + bvLit(uint64(k), 64) + ") " + b.Elems[k].(Scalar).T + " " + t + ")"
+				}
+				return Scalar{T: t, Typ: r.Typ}
+			}
+		}
 	case Ptr:
 		if at, ok := b.elemType(x).Underlying().(*types.Array); ok {
 			_ = at
